@@ -623,11 +623,13 @@ func RunProxy(cases []PxCase, backend string, seed int64, stride int, maxLen int
 					bad(step, "backend fault %q: %d backend reader(s)/call(s) still open 10 s after the request ended%s", ex.Fault, n, stacksWith("bk.(*GRPCTap)"))
 				}
 			}
-			if _, resv, _, _ := f.Cache.Stats(); resv != 0 {
-				bad(step, "backend fault %q: %d bytes still reserved after the request ended", ex.Fault, resv)
+			// (the front end closes the file after the last byte has gone out: give it a moment; a leak stays)
+			if !waitFor(func() bool { _, r, _, _ := f.Cache.Stats(); return r == 0 }, 5*time.Second) {
+				_, resv, _, _ := f.Cache.Stats()
+				bad(step, "backend fault %q: %d bytes still reserved 5 s after the request ended", ex.Fault, resv)
 			}
-			if n := openCacheFiles(f.Dir); n != 0 {
-				bad(step, "backend fault %q: %d descriptor(s) into the cache directory still open", ex.Fault, n)
+			if !waitFor(func() bool { return openCacheFiles(f.Dir) == 0 }, 5*time.Second) {
+				bad(step, "backend fault %q: %d descriptor(s) into the cache directory still open 5 s after the request ended", ex.Fault, openCacheFiles(f.Dir))
 			}
 			rec.WaitIdle(f.Cache, 2*time.Second)
 			ents, _ := rec.ListDir(f.Dir)
@@ -714,6 +716,18 @@ func RunProxyWrites(seed int64) (runs []PxWriteRun, viols []drv.Violation, err e
 					return runs, viols, e
 				}
 				ups = append(ups, u)
+			}
+			// uploads whose client goes away exactly when the last byte has been read: if the server accepts
+			// them (no error, served locally) they count like any other accepted upload
+			for i, n := range []int{3000, 1<<20 + 5} {
+				data := drv.GenData(rng, n, i)
+				u := up{cache.CAS, fmtw.Sha(data), data}
+				cctx, cancel := context.WithCancel(ctx)
+				e := envA.f.Cache.Put(cctx, cache.CAS, u.hash, int64(n), &cancelAtEOF{r: bytes.NewReader(data), cancel: cancel})
+				cancel()
+				if e == nil {
+					ups = append(ups, u)
+				}
 			}
 			// a peer on the same backend recovers every entry
 			var envB *pxEnv
@@ -822,8 +836,8 @@ func RunProxyWrites(seed int64) (runs []PxWriteRun, viols []drv.Violation, err e
 				if _, resv, _, _ := envA.f.Cache.Stats(); resv != 0 {
 					bad("cancelled read: %d bytes still reserved", resv)
 				}
-				if n := openCacheFiles(envA.f.Dir); n != 0 {
-					bad("cancelled read: %d descriptor(s) into the cache directory still open", n)
+				if !waitFor(func() bool { return openCacheFiles(envA.f.Dir) == 0 }, 5*time.Second) {
+					bad("cancelled read: %d descriptor(s) into the cache directory still open 5 s later", openCacheFiles(envA.f.Dir))
 				}
 				hb.st.ClearFaults()
 				res, got, detail := pxRead(envA.f, "http", cache.CAS, hash, -1, ctx)
@@ -977,4 +991,18 @@ func stacksWith(sub string) string {
 		}
 	}
 	return out
+}
+
+// cancelAtEOF cancels the request's context at the moment the payload has been read completely.
+type cancelAtEOF struct {
+	r      io.Reader
+	cancel context.CancelFunc
+}
+
+func (c *cancelAtEOF) Read(p []byte) (int, error) {
+	n, err := c.r.Read(p)
+	if err == io.EOF {
+		c.cancel()
+	}
+	return n, err
 }
